@@ -1,0 +1,14 @@
+//go:build verif && !js && (amd64 || arm64)
+
+package websocket
+
+// VerifMaskAsm exposes the assembly implementation (currently not called by mask).
+func VerifMaskAsm(b []byte, key uint32) uint32 {
+	if len(b) > 0 {
+		return maskAsm(&b[0], len(b), key)
+	}
+	return key
+}
+
+// VerifHaveMaskAsm reports that the assembly implementation is linked in.
+const VerifHaveMaskAsm = true
